@@ -89,7 +89,8 @@ package checker
 
 // call checking runs outside any recover (C04)
 //@ func checker.visitor.FunctionNode returns t
-//@   property C04
+//@   property C03 C04 C15
+//@   schema store-guard Fast kind(rest) == 23 && kind(elemtype(rest)) == 20
 //@   mode nopanic
 //@   assigns *
 //@   requires v != nil && node != nil
